@@ -40,6 +40,12 @@ def Carrier.name : Carrier → String
   | .graphOutputs => "graphOutputs" | .valueInfo => "valueInfo" | .initializers => "initializers"
   | .nodes => "nodes" | .graphMeta => "graphMeta" | .otherGraph => "otherGraph" | .otherModel => "otherModel"
 
+/-- Carriers whose content holds `TensorProto`s that the IR wraps without copying (the only places a
+write-through of the serde can reach). -/
+def Carrier.holdsTensors : Carrier → Bool
+  | .nodes | .initializers | .functions => true
+  | _ => false
+
 /-- Carriers living inside `ModelProto.graph` (what `model_proto.graph.CopyFrom(…)` overwrites). -/
 def Carrier.inGraph : Carrier → Bool
   | .graphName | .graphDoc | .graphInputs | .graphOutputs | .valueInfo | .initializers | .nodes
@@ -59,6 +65,9 @@ structure Serde (P I : Type) where
   its `name` setter writes through.  `writeBack M m'` is the content of the source proto `M` once the IR
   model deserialised from it has been transformed into `m'`.  A serde that copies has `writeBack M _ = M`. -/
   writeBack : Rec P → Rec I → Rec P
+  /-- `restore saved cur`: the caller's proto `cur` after the tensor names recorded in `saved` (the same proto,
+  earlier) have been written back (`optimizer._preserve_tensor_names`, the repair of C15-ALIAS). -/
+  restore : Rec P → Rec P → Rec P
 
 /-- The normaliser `N = ser ∘ de`. -/
 def Serde.N {P I : Type} (s : Serde P I) (M : Rec P) : Rec P := s.ser (s.de M)
@@ -186,8 +195,15 @@ def protoPath {P I W : Type} (s : Serde P I) (T : Api → Opts W → Rec I → R
   | .removeUnusedFunctions => ⟨s.ser m', .none⟩
   | .rewrite true => ⟨M, .argItself⟩                           -- return model  (no serde at all)
   | .rewrite false => ⟨s.writeBack M m', .fresh (s.ser m')⟩
-  | .convertVersion => ⟨spliceConverted s.empty M (s.ser m'), .none⟩
+  | .convertVersion => ⟨spliceConverted s.empty (s.writeBack M m') (s.ser m'), .none⟩
   | .replaceFunctions => ⟨s.writeBack M m', .fresh (s.ser m')⟩
+
+/-- `optimize`'s proto entry once it runs inside `with _preserve_tensor_names(model):` (proposed repair of
+C15-ALIAS): same result, and the caller's proto gets its recorded tensor names back. -/
+def protoOptimizeRestoring {P I W : Type} (s : Serde P I) (T : Api → Opts W → Rec I → Rec I) (o : Opts W)
+    (M : Rec P) : Outcome (Rec P) :=
+  let m' := T .optimize (forward .optimize .proto o) (s.de M)
+  ⟨s.restore M (s.writeBack M m'), .fresh (s.ser m')⟩
 
 /-- Proto entry of `convert_version` as it was before fix 4aa0d5c. -/
 def protoConvertOld {P I W : Type} (s : Serde P I) (T : Api → Opts W → Rec I → Rec I) (o : Opts W) (M : Rec P) :
@@ -209,6 +225,135 @@ def irReplace {I W : Type} (T : Api → Opts W → Rec I → Rec I) (hasFunction
 def protoReplace {P I W : Type} (s : Serde P I) (T : Api → Opts W → Rec I → Rec I) (hasFunctions : Rec I → Bool)
     (o : Opts W) (M : Rec P) : Outcome (Rec P) :=
   if hasFunctions (s.de M) then ⟨M, .raised⟩ else protoPath s T .replaceFunctions o M
+
+/-! ## The wrappers as straight-line programs (regenerated from the source by `harness/extract_c15.py`)
+
+The translator symbolically executes each wrapper's Python body once per entry form (resolving
+`isinstance(model, …)`, the `proto` flag, aliases) and emits the sequence of *plumbing statements* below;
+`OV/Gen/C15Plumbing.lean` holds the programs, and `Props/C15.lean` proves that executing them is exactly
+`protoPath` / `irPath` / `protoReplace` / `irReplace` / `inlinePath`. -/
+
+inductive Stmt
+  | deser              -- x = ir.serde.deserialize_model(arg) / ir.from_proto(arg)
+  | call               -- the IR-level implementation applied to the IR model in hand
+  | callIfHasFunctions -- `if model.functions: <call>`
+  | ser                -- new = ir.serde.serialize_model(ir) / ir.to_proto(ir)
+  | serGraph           -- new = ir.to_proto(ir.graph)
+  | clearArg           -- arg.Clear()
+  | copyFromNew        -- arg.CopyFrom(new)
+  | graphClear         -- arg.graph.Clear()
+  | graphCopyFromNew   -- arg.graph.CopyFrom(new)
+  | delFunctions       -- del arg.functions[:]
+  | delOpsets          -- del arg.opset_import[:]
+  | addOpsetsFromIr    -- for d, v in ir.opset_imports.items(): arg.opset_import.add(domain=d, version=v)
+  | saveNames          -- with _preserve_tensor_names(arg):   (enter)
+  | restoreNames       --                                     (exit: names recorded at entry are written back)
+  | guardEmptyRules    -- if rules is None: rules = DEFAULT  elif not rules: return arg
+  | guardNoFunctions   -- if len(model.functions) != 0: raise ValueError
+  | retArg | retNew | retNone | retAux
+  | unknown            -- anything the translator does not recognise (no theorem about such a program checks)
+  deriving DecidableEq, Repr
+
+/-- State of the proto entry: the caller's object, the IR model in hand, the last serialised proto, and the
+return once one happened. -/
+structure PState (P I : Type) where
+  arg : Rec P
+  ir : Rec I
+  new : Rec P
+  saved : Rec P
+  done : Option (Ret (Rec P))
+
+def protoStep {P I : Type} (s : Serde P I) (t : Rec I → Rec I) (hasF : Rec I → Bool) (emptyRules : Bool)
+    (st : PState P I) (c : Stmt) : PState P I :=
+  match st.done with
+  | some _ => st
+  | none =>
+    match c with
+    | .deser => { st with ir := s.de st.arg }
+    | .call => { st with ir := t st.ir, arg := s.writeBack st.arg (t st.ir) }
+    | .callIfHasFunctions =>
+      if hasF st.ir then { st with ir := t st.ir, arg := s.writeBack st.arg (t st.ir) } else st
+    | .ser => { st with new := s.ser st.ir }
+    | .serGraph => { st with new := s.ser st.ir }
+    | .clearArg => { st with arg := fun _ => s.empty }
+    | .copyFromNew => { st with arg := st.new }
+    | .graphClear => { st with arg := fun c => if c.inGraph then s.empty else st.arg c }
+    | .graphCopyFromNew => { st with arg := fun c => if c.inGraph then st.new c else st.arg c }
+    | .delFunctions => { st with arg := fun c => if c = .functions then s.empty else st.arg c }
+    | .delOpsets => { st with arg := fun c => if c = .opsetImports then s.empty else st.arg c }
+    | .addOpsetsFromIr => { st with arg := fun c => if c = .opsetImports then s.ser st.ir c else st.arg c }
+    | .saveNames => { st with saved := st.arg }
+    | .restoreNames => { st with arg := s.restore st.saved st.arg }
+    | .guardEmptyRules => if emptyRules then { st with done := some .argItself } else st
+    | .guardNoFunctions => if hasF st.ir then { st with done := some .raised } else st
+    | .retArg => { st with done := some .argItself }
+    | .retNew => { st with done := some (.fresh st.new) }
+    | .retNone => { st with done := some .none }
+    | .retAux => { st with done := some .aux }
+    | .unknown => st
+
+/-- Run a proto-entry program on the caller's proto `M`.  (`de M` as initial `ir`/`new` is a placeholder:
+every generated program assigns them before use.)  Falling off the end returns `None`. -/
+def protoExec {P I : Type} (s : Serde P I) (t : Rec I → Rec I) (hasF : Rec I → Bool) (emptyRules : Bool)
+    (prog : List Stmt) (M : Rec P) : Outcome (Rec P) :=
+  let st := prog.foldl (protoStep s t hasF emptyRules) ⟨M, s.de M, M, M, none⟩
+  ⟨st.arg, st.done.getD .none⟩
+
+structure IState (I : Type) where
+  m : Rec I
+  done : Option (Ret (Rec I))
+
+def irStep {I : Type} (t : Rec I → Rec I) (hasF : Rec I → Bool) (emptyRules : Bool)
+    (st : IState I) (c : Stmt) : IState I :=
+  match st.done with
+  | some _ => st
+  | none =>
+    match c with
+    | .call => { st with m := t st.m }
+    | .callIfHasFunctions => if hasF st.m then { st with m := t st.m } else st
+    | .guardEmptyRules => if emptyRules then { st with done := some .argItself } else st
+    | .guardNoFunctions => if hasF st.m then { st with done := some .raised } else st
+    | .retArg => { st with done := some .argItself }
+    | .retNone => { st with done := some .none }
+    | .retAux => { st with done := some .aux }
+    | _ => st          -- serde / proto statements have no meaning on the IR entry
+
+def irExec {I : Type} (t : Rec I → Rec I) (hasF : Rec I → Bool) (emptyRules : Bool)
+    (prog : List Stmt) (m : Rec I) : Outcome (Rec I) :=
+  let st := prog.foldl (irStep t hasF emptyRules) ⟨m, none⟩
+  ⟨st.m, st.done.getD .none⟩
+
+/-- A program is *recognised* when the translator understood every statement. -/
+def recognised (prog : List Stmt) : Bool := !prog.contains .unknown
+
+def Api.emptyRules : Api → Bool
+  | .rewrite e => e
+  | _ => false
+
+def Api.srcName : Api → String
+  | .optimize => "optimize" | .foldConstants => "fold_constants" | .removeUnusedNodes => "remove_unused_nodes"
+  | .removeUnusedFunctions => "remove_unused_functions" | .rewrite _ => "rewrite"
+  | .convertVersion => "convert_version" | .replaceFunctions => "replace_functions"
+
+def Entry.srcName : Entry → String
+  | .proto => "proto" | .ir => "ir"
+
+/-- Name of the option in the wrapper's signature / at the IR-level implementation. -/
+def OptKey.callerName : OptKey → String
+  | .rules => "pattern_rewrite_rules" | k => k.name
+def OptKey.calleeName : OptKey → String
+  | .functions => "irfunctions" | k => k.name
+
+/-- The (API, entry, option) triples whose routing the source table is checked against. -/
+def checkedRoutes : List (Api × Entry × OptKey) :=
+  ([Entry.proto, Entry.ir].flatMap fun e =>
+    [.numIterations, .onnxShapeInference, .stopIfNoChange, .inputSizeLimit, .outputSizeLimit, .inline].map
+      fun k => (Api.optimize, e, k)) ++
+  [(.foldConstants, .proto, .foldKwargs), (.foldConstants, .ir, .foldKwargs),
+   (.rewrite false, .proto, .rules), (.rewrite false, .ir, .rules),
+   (.convertVersion, .proto, .targetVersion), (.convertVersion, .ir, .targetVersion),
+   (.convertVersion, .proto, .fallback), (.convertVersion, .ir, .fallback),
+   (.replaceFunctions, .proto, .functions)]
 
 /-- APIs whose proto entry moves the *whole* serialised result into the result object. -/
 def Api.wholesale : Api → Bool
@@ -242,7 +387,7 @@ def keptByConvert (c : Carrier) : Bool := !c.inGraph && c != .functions && c != 
 the composition that produced each carrier. -/
 def symSerde : Serde String String :=
   { de := fun M c => "de(" ++ M c ++ ")", ser := fun m c => "ser(" ++ m c ++ ")", empty := "empty",
-    writeBack := fun M _ c => M c ++ "~" }   -- `~` = the caller's content, possibly written through by aliasing
+    writeBack := fun M _ c => M c ++ "~", restore := fun saved _ c => saved c }   -- `~` = the caller's content, possibly written through by aliasing
 
 def symT : Api → Opts String → Rec String → Rec String := fun _ _ m c => "T(" ++ m c ++ ")"
 
